@@ -47,7 +47,7 @@ META = {
             'classes': {'units:offset-negative-fractional': 100, 'units:offset-one-digit-hour': 300,
                         'units:offset-two-digit-hour': 100, 'units:without-seconds': 200, 'units:T-separator': 200,
                         'units:crosses-day-boundary': 200, 'units:crosses-year-boundary': 50, 'units:leap-day': 100,
-                        'units:utc-without-offset': 6,
+                        'units:utc-without-offset': 6, 'roundtrip:reference-instant-at-utc-midnight': 20, 'roundtrip:time-stored-as-float64': 20,
                         'roundtrip:cf1d': 30, 'roundtrip:cf2d': 30, 'roundtrip:shoc_simple': 30,
                         'roundtrip:shoc_standard': 30, 'roundtrip:ugrid': 30,
                         'roundtrip:no-time-axis': 15, 'roundtrip:source-opened-from-disk': 40,
@@ -258,6 +258,15 @@ def one_roundtrip(obs, rng, conv, off, spec):
     if has_time:
         period = pick(rng, tu.PERIODS)
         elabel, epoch = pick(rng, tu.FILE_EPOCHS)
+        if chance(rng, 0.2):
+            # the everyday case: reference instant exactly at UTC midnight (xarray then writes the bare date, without
+            # 'T', time of day or offset - the rewrite has to add all of them)
+            if chance(rng, 0.6):
+                off = 0
+                elabel, epoch = pick(rng, [e for e in tu.FILE_EPOCHS if e[1][3:] == (0, 0, 0)])
+            elif off >= 0:
+                elabel, epoch = 'local-time-equals-offset', (1990, 1, 1, off // 60, off % 60, 0)
+            spec['offset'] = tu.offset_label(off)
         style = pick(rng, tu.styles_for(off))
         units, truth = tu.compose(period, epoch, off, style)
         calendar = pick(rng, ['proleptic_gregorian', 'proleptic_gregorian', 'standard', 'gregorian'])
@@ -271,8 +280,14 @@ def one_roundtrip(obs, rng, conv, off, spec):
         model.time['values'] = (ref_ns + counts * pns).astype('datetime64[ns]')
         model.time['units'] = units
         model.time['calendar'] = calendar
+        if period in ('days', 'hours', 'minutes') and chance(rng, 0.35):
+            # the usual EMS / SHOC layout: time stored as double precision numbers (whole multiples here, so exact)
+            model.time['dtype'] = 'float64'
+            obs.cls('roundtrip:time-stored-as-float64')
         spec.update({'units': units, 'calendar': calendar, 'period': period, 'style': style, 'epoch': elabel})
         classify_units(obs, off, style, epoch, truth)
+        if truth % 86400 == 0:
+            obs.cls('roundtrip:reference-instant-at-utc-midnight')
         if tu.offset_format_defect_applies(off):
             obs.cls('roundtrip:offset-one-digit-hour-or-negative-fractional')
     else:
@@ -485,8 +500,11 @@ def check_file(obs, model, path, fills, how, has_time, units_fixed, period, trut
         name = model.time['name']
         if obs.expect(name in back.variables, 'time variable is present in the reopened dataset'):
             got = back[name].values
+            # double precision time numbers are decoded by floating point arithmetic: allow 1 microsecond there
+            slack = 1000 if model.time.get('dtype') == 'float64' else 0
             obs.expect(got.dtype.kind == 'M' and got.shape == model.time['values'].shape
-                       and bool(numpy.all(got.astype('datetime64[ns]') == model.time['values'])),
+                       and bool(numpy.all(numpy.abs(got.astype('datetime64[ns]').astype('int64')
+                                                    - model.time['values'].astype('int64')) <= slack)),
                        'decoded time instants of the reopened dataset are identical',
                        lambda: {'how': how, 'requested units': model.time['units'], 'got': got.astype(str),
                                 'want': model.time['values'].astype(str)}, mech='time-instants-decoded')
